@@ -196,6 +196,11 @@ impl Driver {
             registry, notify, ..
         } = self;
         let need_add = !registry.contains_key(&arg.fd);
+        #[cfg(compio_verif)]
+        crate::verif::emit(crate::verif::Event::Submit {
+            id: key.as_raw(),
+            path: crate::verif::SubmitPath::PollWait,
+        });
         let queue = registry.entry(arg.fd).or_default();
         let token = queue.push_back_interest(key, arg.interest);
         let event = queue.event();
@@ -373,6 +378,13 @@ impl Driver {
         let waker = self.waker();
         let completed = self.completed_tx.clone();
         // SAFETY: we're submitting into the driver, so it's safe to freeze here.
+        #[cfg(compio_verif)]
+        let verif_id = key.as_raw();
+        #[cfg(compio_verif)]
+        crate::verif::emit(crate::verif::Event::Submit {
+            id: verif_id,
+            path: crate::verif::SubmitPath::Blocking,
+        });
         let mut key = unsafe { key.freeze() };
 
         let mut closure = move || {
@@ -381,6 +393,8 @@ impl Driver {
                 Poll::Ready(res) => res,
             };
             let res = catch_unwind_io(AssertUnwindSafe(operate));
+            #[cfg(compio_verif)]
+            crate::verif::emit(crate::verif::Event::PoolDone { id: verif_id });
             let _ = completed.send(Entry::new(key.into_inner(), res));
             waker.wake();
         };
